@@ -16,8 +16,8 @@ def _vec(c, key="p"):
     v = dec(c[key])
     if c.get("complex"):
         return numpy.array(v, dtype=complex)
-    if c.get("as_int"):
-        return numpy.array(v, dtype=float)
+    if c.get("as_int") and all(float(x).is_integer() for x in v):
+        return numpy.array([int(x) for x in v], dtype=int)
     return numpy.array(v, dtype=float)
 
 
